@@ -23,7 +23,7 @@ import (
 func TestVerifC04(t *testing.T) {
 	vfMain(t, vfCheck{
 		ID: "C04", Level: "fault_enumeration",
-		Rule:        "10 scenarios (N concurrent single calls; concurrent and sequential ReadAt / WriteTo / WriteAt / ReadFrom mid-transfer; callers that keep issuing requests; raw dispatchRequest ledger) x fault kinds {server->client stream EOF at byte n, error at byte n, k-th client->server Write call fails with the connection reset, k-th Write fails one-sided}; quick: every reply-frame boundary +-1 and a seeded 12% of the interior offsets, thorough: every offset 0..T and every write index. A class is (scenario, fault kind, position bucket); non-trivial when calls were in flight at the moment of the fault.",
+		Rule:        "10 scenarios (N concurrent single calls; concurrent and sequential ReadAt / WriteTo / WriteAt / ReadFrom mid-transfer; callers that keep issuing requests; raw dispatchRequest ledger) x fault kinds {server->client stream EOF at byte n, error at byte n, k-th client->server Write call fails with the connection reset, k-th Write fails one-sided}; quick: every reply-frame boundary +-1 and a seeded 12% of the interior offsets, thorough: every offset 0..T (streams longer than 2500 bytes: every offset of the first 1200 bytes and a seeded stride after) and every write index. A class is (scenario, fault kind, position bucket); non-trivial when calls were in flight at the moment of the fault.",
 		Assumptions: []string{"'bounded time' is decided as 'no stuck state' (every goroutine parked with nothing able to wake it), not as a latency bound", "the peer is scripted, so which replies were completely delivered before byte n is known exactly", "race detector on"},
 		Units:       func(tier vfTier, seed uint64) int { return 10 * 4 },
 		Shards: func(tier vfTier) int {
@@ -430,6 +430,17 @@ func c04Run(u *vfUnit) {
 			}
 			positions = sel
 		}
+	}
+	if u.Tier == vfThorough && len(positions) > 2500 {
+		// very long streams: every offset of the first 1200 bytes, then a seeded 1-in-k stride (boundaries were kept above only in quick)
+		var sel []int64
+		k := len(positions)/1300 + 1
+		for i, n := range positions {
+			if i < 1200 || i >= len(positions)-50 || r.Intn(k) == 0 {
+				sel = append(sel, n)
+			}
+		}
+		positions = sel
 	}
 	for pi, pos := range positions {
 		fault := &c04Fault{kind: kind, pos: pos}
